@@ -79,6 +79,7 @@ class RefInterp:
         self.default_vars = default_vars or {}
         self.max_exec = max_exec
         self.executions = 0
+        self.resource_lookup = None  # key -> bytes or None
 
     # -- public ---------------------------------------------------------------
     def run(self, query, input_value=None, extra=None, has_input=False):
@@ -98,6 +99,23 @@ class RefInterp:
         return query.segments[0]
 
     def _run(self, query, input_value=None, extra=None, top=False):
+        from liquer.parser import ResourceQuerySegment, TransformQuerySegment
+
+        segs = query.segments
+        if segs and isinstance(segs[0], ResourceQuerySegment):
+            # resource (+ optional transformation): the store content is supplied by resource_lookup
+            key = segs[0].path()
+            data = self.resource_lookup(key) if self.resource_lookup is not None else None
+            if data is None:
+                return Fail([("resource", 0)], "missing_resource", key)
+            if len(segs) == 1:
+                out = Ok()
+                out.value = data
+                out.vars = copy.deepcopy(self.default_vars)
+                return out
+            if len(segs) == 2 and isinstance(segs[1], TransformQuerySegment):
+                return self._run_actions(list(segs[1].query), segs[1].filename, data, extra)
+            raise ValueError("unsupported query shape")
         seg = self._segment(query)
         return self._run_actions(list(seg.query), seg.filename, input_value, extra)
 
